@@ -20,11 +20,13 @@ from .coqterm import coq_list, coq_string, coq_Z
 C13_FILES = ["Properties/C13.v", "Proofs/DirectiveProofs.v", "Proofs/DirectiveOutProofs.v"]
 HOOKS = ["on_post_input_coercion", "on_argument_execution", "on_field_execution", "on_pre_output_coercion"]
 LOCS = ("SCALAR | OBJECT | INPUT_OBJECT | INPUT_FIELD_DEFINITION | ARGUMENT_DEFINITION | FIELD_DEFINITION | FIELD | ENUM | "
-        "ENUM_VALUE")
+        "ENUM_VALUE | INTERFACE | UNION")
 
 
 OBJ_RESOLVED = {"v": "s", "vs": ["s", None, "t"], "e": "RED", "es": ["GREEN", None, "RED", "RED"]}
 OBJS_RESOLVED = [{"v": "s"}, None, {"v": "t"}]
+IOBJ_RESOLVED = {"v": "s"}
+UOBJS_RESOLVED = [{"v": "s"}, {"v": "t"}]      # no null item: a null at an abstract position has no runtime type (not modelled)
 
 
 ENUM_VALUES = ("RED", "GREEN")
@@ -58,6 +60,19 @@ def gen_setup(rng):
         return out
     places = {k: inst() for k in ["Tg", "In1", "In2", "In1.f", "In1.g", "In1.sub", "In2.h", "echo.a", "echo.b", "echo.c",
                                   "Query.echo", "Out", "Out.v", "Query.obj", "En", "En.RED", "Out.vs", "Query.objs"]}
+    # ABSTRACT output positions (seed C13-h): an interface and a union whose runtime type is Out -- own generator, the
+    # stream above is untouched
+    r2 = random.Random(counter[0] * 31 + len(places["Out"]))
+    for k in ("Ifc", "Un", "Query.iobj", "Query.uobjs"):
+        places[k] = []
+        for _ in range(r2.choice([0, 1, 1, 2])):
+            counter[0] += 1
+            places[k].append((r2.choice(list(pool)), counter[0]))
+    if not any("on_pre_output_coercion" in pool[d] for d, _n in places["Out"]):
+        withpre = [d for d in pool if "on_pre_output_coercion" in pool[d]]
+        if withpre:
+            counter[0] += 1
+            places["Out"] = places["Out"] + [(withpre[0], counter[0])]
     return pool, places
 
 
@@ -72,16 +87,21 @@ scalar Tg%s
 enum En%s { RED%s GREEN }
 input In2%s { h: Tg%s }
 input In1%s { f: Tg%s g: [Tg]%s sub: In2%s }
-type Out%s { v: Tg%s e: En es: [En] vs: [Tg]%s }
+interface Ifc%s { v: Tg }
+union Un%s = Out
+type Out implements Ifc%s { v: Tg%s e: En es: [En] vs: [Tg]%s }
 type Query {
+  iobj: Ifc%s
+  uobjs: [Un]%s
   echo(a: In1%s, b: Tg%s, c: [Tg]%s): Tg%s
   dflt(a: In1 = {f: "w", g: ["x", "yz"], sub: {h: "w"}}%s, b: Tg = "x"%s, c: [Tg] = ["w", "yz"]%s): Tg%s
   obj: Out%s
   objs: [Out]%s
 }
 """ % (ds, dirs_sdl(P["Tg"]), dirs_sdl(P["En"]), dirs_sdl(P["En.RED"]), dirs_sdl(P["In2"]), dirs_sdl(P["In2.h"]),
-       dirs_sdl(P["In1"]), dirs_sdl(P["In1.f"]), dirs_sdl(P["In1.g"]), dirs_sdl(P["In1.sub"]), dirs_sdl(P["Out"]),
-       dirs_sdl(P["Out.v"]), dirs_sdl(P["Out.vs"]), dirs_sdl(P["echo.a"]), dirs_sdl(P["echo.b"]), dirs_sdl(P["echo.c"]),
+       dirs_sdl(P["In1"]), dirs_sdl(P["In1.f"]), dirs_sdl(P["In1.g"]), dirs_sdl(P["In1.sub"]),
+       dirs_sdl(P["Ifc"]), dirs_sdl(P["Un"]), dirs_sdl(P["Out"]),
+       dirs_sdl(P["Out.v"]), dirs_sdl(P["Out.vs"]), dirs_sdl(P["Query.iobj"]), dirs_sdl(P["Query.uobjs"]), dirs_sdl(P["echo.a"]), dirs_sdl(P["echo.b"]), dirs_sdl(P["echo.c"]),
        dirs_sdl(P["Query.echo"]), dirs_sdl(P["echo.a"]), dirs_sdl(P["echo.b"]), dirs_sdl(P["echo.c"]), dirs_sdl(P["Query.echo"]),
        dirs_sdl(P["Query.obj"]), dirs_sdl(P["Query.objs"]))
 
@@ -257,6 +277,18 @@ async def run_schema(pool, P, cases):
     async def objs(parent, args, ctx, info):    # pylint: disable=unused-variable
         return json.loads(json.dumps(OBJS_RESOLVED))
 
+    @Resolver("Query.iobj", schema_name=name)
+    async def iobj(parent, args, ctx, info):    # pylint: disable=unused-variable
+        return json.loads(json.dumps(IOBJ_RESOLVED))
+
+    @Resolver("Query.uobjs", schema_name=name)
+    async def uobjs(parent, args, ctx, info):   # pylint: disable=unused-variable
+        return json.loads(json.dumps(UOBJS_RESOLVED))
+
+    from tartiflette import TypeResolver
+    for abstract in ("Ifc", "Un"):
+        TypeResolver(abstract, schema_name=name)(lambda result, context, info, abstract_type: "Out")
+
     engine = await create_engine(sdl_of(pool, P), schema_name=name)
     out = []
     for c in cases:
@@ -331,7 +363,7 @@ def gen_case(rng, pool):
         else:
             sels.append("...FE%d" % k)
             frags.append("fragment FE%d on Query { %s }" % (k, node))
-    q = "query %s { %s obj { v vs e es } objs { v } } %s" % (decl, " ".join(sels), " ".join(frags))
+    q = "query %s { %s obj { v vs e es } objs { v } iobj { v } uobjs { ... on Out { v } } } %s" % (decl, " ".join(sels), " ".join(frags))
     return {"query": q, "variables": dict({n: raw_json(r) for n, _t, r in vars_}, **dvars), "vars": vars_, "args": args, "qdirs": qdirs,
             "nodes": n_nodes}
 
@@ -352,8 +384,8 @@ def cases_file(pool, P, items):
     def oty_tg():
         return "(OScalar %s)" % dinst_coq(pool, P["Tg"])
 
-    def oty_out(fields):
-        return "(OObject %s %s)" % (dinst_coq(pool, P["Out"]), coq_list(
+    def oty_out(fields, abstract_dirs=()):
+        return "(OObject %s %s)" % (dinst_coq(pool, list(abstract_dirs) + P["Out"]), coq_list(
             ["(%s, %s, %s)" % (coq_string(fn), dinst_coq(pool, P["Out." + fn]), ft) for fn, ft in fields]))
     orows = []
     for c, o in items:
@@ -362,14 +394,19 @@ def cases_file(pool, P, items):
             "(%s, %s, TLeaf \"r\")" % (dinst_coq(pool, c["qdirs"] + P["Query.echo"]), oty_tg()),
             "(%s, %s, %s)" % (dinst_coq(pool, P["Query.obj"]), oty_out([("v", oty_tg()), ("vs", "(OListOf %s)" % oty_tg())]),
                               tval_coq(OBJ_RESOLVED)),
-            "(%s, (OListOf %s), %s)" % (dinst_coq(pool, P["Query.objs"]), oty_out([("v", oty_tg())]), tval_coq(OBJS_RESOLVED))]
+            "(%s, (OListOf %s), %s)" % (dinst_coq(pool, P["Query.objs"]), oty_out([("v", oty_tg())]), tval_coq(OBJS_RESOLVED)),
+            # abstract positions: the abstract type's hooks, then the runtime object type's, then the object's fields
+            "(%s, %s, %s)" % (dinst_coq(pool, P["Query.iobj"]), oty_out([("v", oty_tg())], P["Ifc"]), tval_coq(IOBJ_RESOLVED)),
+            "(%s, (OListOf %s), %s)" % (dinst_coq(pool, P["Query.uobjs"]), oty_out([("v", oty_tg())], P["Un"]),
+                                        tval_coq(UOBJS_RESOLVED))]
         # the enum positions (obj.e, obj.es) and the hooks of En / En.RED are judged by python_checks (exact counts);
         # the Coq-side model covers the Tg / Out positions
         obj_obs = data.get("obj")
         if isinstance(obj_obs, dict):
             obj_obs = {k: v for k, v in obj_obs.items() if k in ("v", "vs")}
         enum_insts = set(P["En"]) | set(P["En.RED"])
-        obs = [tval_coq(data.get("echo")), tval_coq(obj_obs), tval_coq(data.get("objs"))]
+        obs = [tval_coq(data.get("echo")), tval_coq(obj_obs), tval_coq(data.get("objs")), tval_coq(data.get("iobj")),
+               tval_coq(data.get("uobjs"))]
         pre = coq_list(["(%s, %s)" % (coq_string(d), coq_Z(n)) for d, h, n in o["log"]
                         if h == "on_pre_output_coercion" and (d, n) not in enum_insts])
         orows.append("(%s, %s, %s)" % (coq_list(parts), coq_list(obs), pre))
@@ -449,8 +486,11 @@ def python_checks(pool, P, c, o):
     if not isinstance(data, dict) or data.get("e") != "RED" or data.get("es") != ["GREEN", None, "RED", "RED"]:
         P_.append("obj.e / obj.es are %r / %r, expected 'RED' / ['GREEN', None, 'RED', 'RED']" % (
             data.get("e") if isinstance(data, dict) else data, data.get("es") if isinstance(data, dict) else data))
-    for place, expected, what in (("Tg", 7, "echo, obj.v, the 3 items of obj.vs (one null), objs[0].v, objs[2].v"),
-                                  ("Out", 4, "obj and the 3 items of objs (one null)"),
+    for place, expected, what in (("Tg", 10, "echo, obj.v, the 3 items of obj.vs (one null), objs[0].v, objs[2].v, iobj.v, uobjs[0].v, "
+                                   "uobjs[1].v"),
+                                  ("Out", 7, "obj, the 3 items of objs (one null), iobj (through the interface) and the 2 items of "
+                                   "uobjs (through the union)"),
+                                  ("Ifc", 1, "iobj"), ("Un", 2, "the 2 items of uobjs"),
                                   ("En", 5, "obj.e and the 4 items of obj.es (one null)"),
                                   ("En.RED", 3, "the 3 occurrences of the value RED in obj.e / obj.es")):
         for d, n in P[place]:
